@@ -415,7 +415,7 @@ func signRule(p *Prog, r *Report, rule string) {
 		return
 	}
 	for _, c := range callsIn(bs, named(KEYS+".Sign")) {
-		r.Check(depOnCall(argN(c, 1), named(HG+".BlockBody.Hash")), rule, "Block.Sign:digest<-Body.Hash", p.ipos(c), fnName(bs), "signature is over the body hash (incl. state hash)", "Block.Sign does not sign Body.Hash()")
+		r.Check(flowsFromCall(argN(c, 1), named(HG+".BlockBody.Hash"), 0), rule, "Block.Sign:digest<-Body.Hash", p.ipos(c), fnName(bs), "the digest handed to the signer IS Body.Hash() (incl. state hash)", "Block.Sign does not hand Body.Hash() itself to keys.Sign (ECDSA keeps only the leftmost 32 bytes of a longer buffer: a prefix-then-hash buffer signs the constant prefix, and every signature verifies on every block)")
 	}
 }
 
